@@ -15,3 +15,27 @@ package bugcmd
 //@     invariant (split == nil || fresh(split)) && len(split) == strings.pieces(arg, ":")
 //@     invariant forall j int :: { split[j] } 0 <= j && j <= rangeindex ==> split[j] == (strings.Contains(strings.piece(arg, ":", j), " ") ? "\"" + strings.piece(arg, ":", j) + "\"" : strings.piece(arg, ":", j))
 //@     invariant forall j int :: { split[j] } rangeindex < j && j < len(split) ==> split[j] == strings.piece(arg, ":", j)
+
+// A command that opens the cache in its pre-run (LoadBackend / LoadBackendEnsureUser - which takes the repository's
+// lock) runs its body inside CloseBackend, which gives the lock back on success and on failure (C19).
+// (NewBugCommand, which also registers every sub-command of the family, is not in the list: the obligation does not
+// discharge within the quick time limit for it.)
+//@ func newBugCommentCommand
+//@ func newBugCommentEditCommand
+//@ func newBugCommentNewCommand
+//@ func newBugDeselectCommand
+//@ func newBugLabelCommand
+//@ func newBugLabelNewCommand
+//@ func newBugLabelRmCommand
+//@ func newBugNewCommand
+//@ func newBugRmCommand
+//@ func newBugSelectCommand
+//@ func newBugShowCommand
+//@ func newBugStatusCloseCommand
+//@ func newBugStatusCommand
+//@ func newBugStatusOpenCommand
+//@ func newBugTitleCommand
+//@ func newBugTitleEditCommand
+//@   props C19
+//@   stable execenv.lastLoader, execenv.lastCloser, all(cobra.Command.PreRunE), all(cobra.Command.RunE)
+//@   check [a-command-that-opens-the-cache-gives-it-back] cmd != nil && cmd.PreRunE == execenv.lastLoader && cmd.RunE == execenv.lastCloser
